@@ -42,6 +42,8 @@ JudgeSimplify(r) ==
         changed == in # out
     IN IF ~WellFormed(out) THEN Verdict(r.id, "REJECT", "WellFormed", 0, nontriv, changed, "")
        ELSE IF ~r.flags.compiles THEN Verdict(r.id, "REJECT", "Compiles", 0, nontriv, changed, "")
+       ELSE IF r.flags.shape /\ OnlyTakenApart(in) /\ LeftoverProj(in, out) THEN
+            Verdict(r.id, "REJECT", "Shape", 0, nontriv, changed, "")
        ELSE IF ~(FVars(out) \subseteq FVars(in) \cup (IF r.pass = "helper" THEN HelperNames ELSE {})) THEN
             \* (a helper may legitimately be left as a call by name: C05)
             Verdict(r.id, "REJECT", "Scoped", 0, nontriv, changed, "")
